@@ -330,6 +330,13 @@ def simp1(t):
         return None
     if k == 'call':
         f, args = t[1], t[2]
+        if f[0] == 'call' and len(args) == 1 and len(f[2]) == 1 and f[2][0][0] == 'const' and not (len(f) > 3 and f[3]) and not (len(t) > 3 and t[3]):
+            g_ = f[1]
+            gname = g_[1] if g_[0] == 'sym' else (g_[2] if g_[0] == 'attr' and g_[1] == ('sym', 'operator') else None)
+            if gname == 'attrgetter' and isinstance(f[2][0][1], str) and '.' not in f[2][0][1]:
+                return ('attr', args[0], f[2][0][1])               # attrgetter('a')(x)  is  x.a
+            if gname == 'itemgetter':
+                return simp(('idx', args[0], f[2][0])) or ('idx', args[0], f[2][0])
         if f[0] == 'attr' and f[2] == 'get' and f[1][0] == 'dict' and len(args) in (1, 2):
             ki = known_value(args[0])
             if ki is not None and all(known_value(kk) is not None for kk, _ in f[1][1]):
